@@ -17,15 +17,15 @@ type txInfo struct {
 }
 
 type recording struct {
-	Evs      []Ev
-	Obs      []*Observation // O_0 .. O_n (after each committed transaction)
-	Tx       map[int]*txInfo
-	Dir      string
-	U        *Universe
-	OO       ObsOpts
-	Skipped  string // non-empty: the workload was abandoned (panic etc.)
-	MergeOK  int
-	Failed   int
+	Evs     []Ev
+	Obs     []*Observation // O_0 .. O_n (after each committed transaction)
+	Tx      map[int]*txInfo
+	Dir     string
+	U       *Universe
+	OO      ObsOpts
+	Skipped string // non-empty: the workload was abandoned (panic etc.)
+	MergeOK int
+	Failed  int
 }
 
 // record runs the case with a recorder attached. keepDir leaves the directory in place.
@@ -281,3 +281,164 @@ func minInt(a, b int) int {
 // waitMs is used before a simulated restart that will write: a real process
 // cannot crash and restart within the same millisecond.
 func waitMs() { time.Sleep(2 * time.Millisecond) }
+
+// ---- power-loss images (C11) ----
+// Per file the durable content is its content at its last sync event (absent if
+// never synced); truncations, writes and removals since then are volatile: any
+// subset of them may have reached the disk, the last kept write possibly torn.
+
+type plStats struct {
+	Images, WithVolatile, Positions int
+}
+
+func explorePowerLoss(c Case, rc *recording, st *Stats) (plStats, error) {
+	var ps plStats
+	ctx := crashContexts(rc.Evs)
+	imgDir := newDir("pl")
+	defer os.RemoveAll(imgDir)
+	seen := map[uint64]bool{}
+	cur := newMemFS()
+	durable := map[string][]byte{} // file -> content at last sync
+	var vol []int                  // indexes of volatile unit events (truncate, write, remove)
+	check := func(img *memFS, cp crashPoint, what string) error {
+		key := fmt.Sprintf("%x/%d/%d", img.hash(), cp.C, cp.InFlight)
+		if seen[hash64(key)] {
+			return nil
+		}
+		seen[hash64(key)] = true
+		ps.Images++
+		res := openImage(img, imgDir, c.Cfg, rc.U, rc.OO)
+		if res.OpenErr != nil {
+			return fmt.Errorf("Open failed on the power-loss image at %s (%s): %v", cp, what, res.OpenErr)
+		}
+		if res.Obs.Panic != "" {
+			return fmt.Errorf("reads panicked on the power-loss image at %s (%s): %s", cp, what, res.Obs.Panic)
+		}
+		want := []*Observation{rc.Obs[minInt(cp.C, len(rc.Obs)-1)]}
+		if cp.InFlight >= 0 {
+			if ti := rc.Tx[cp.InFlight]; ti != nil && ti.Committed {
+				want = append(want, rc.Obs[ti.ObsIdx])
+			}
+		}
+		var diffs []string
+		for _, w := range want {
+			d := DiffObs(w, res.Obs)
+			if d == "" {
+				return nil
+			}
+			diffs = append(diffs, d)
+		}
+		return fmt.Errorf("state after power loss at %s (%s) is neither the state of the %d returned commits nor that plus the in-flight transaction: %s", cp, what, cp.C, strings.Join(diffs, " || "))
+	}
+	build := func(keep map[int]bool, tornLast bool) *memFS {
+		img := newMemFS()
+		for d := range cur.dirs {
+			img.dirs[d] = true
+		}
+		for f, b := range durable {
+			img.files[f] = b
+		}
+		last := -1
+		for _, idx := range vol {
+			if keep[idx] {
+				last = idx
+			}
+		}
+		for _, idx := range vol {
+			if !keep[idx] {
+				continue
+			}
+			e := rc.Evs[idx]
+			if e.Kind != "remove" {
+				if _, ok := img.files[e.Path]; !ok {
+					img.files[e.Path] = []byte{}
+				}
+			}
+			if tornLast && idx == last && e.Kind == "write" {
+				img.apply(e, len(e.Data)/2)
+			} else {
+				img.apply(e, -1)
+			}
+		}
+		return img
+	}
+	for p := 0; p <= len(rc.Evs); p++ {
+		cp := ctx[p]
+		if p == len(rc.Evs) || rc.Evs[p].Kind != "mark" {
+			ps.Positions++
+			if len(vol) > 0 {
+				ps.WithVolatile++
+			}
+			// subsets of the volatile events
+			var masks []map[int]bool
+			n := len(vol)
+			if n <= 3 {
+				for m := 0; m < 1<<n; m++ {
+					k := map[int]bool{}
+					for i, idx := range vol {
+						if m&(1<<i) != 0 {
+							k[idx] = true
+						}
+					}
+					masks = append(masks, k)
+				}
+			} else {
+				none, all := map[int]bool{}, map[int]bool{}
+				for _, idx := range vol {
+					all[idx] = true
+				}
+				masks = append(masks, none, all)
+				for _, idx := range vol {
+					one := map[int]bool{idx: true}
+					but := map[int]bool{}
+					for _, j := range vol {
+						if j != idx {
+							but[j] = true
+						}
+					}
+					masks = append(masks, one, but)
+				}
+				// every prefix
+				pre := map[int]bool{}
+				for _, idx := range vol {
+					pre[idx] = true
+					cp := map[int]bool{}
+					for k := range pre {
+						cp[k] = true
+					}
+					masks = append(masks, cp)
+				}
+			}
+			for _, k := range masks {
+				if err := check(build(k, false), cp, fmt.Sprintf("%d of %d volatile operations kept", len(k), n)); err != nil {
+					return ps, err
+				}
+				if len(k) > 0 {
+					if err := check(build(k, true), cp, fmt.Sprintf("%d of %d volatile operations kept, last write torn", len(k), n)); err != nil {
+						return ps, err
+					}
+				}
+			}
+		}
+		if p < len(rc.Evs) {
+			e := rc.Evs[p]
+			cur.apply(e, -1)
+			switch e.Kind {
+			case "truncate", "write", "remove":
+				vol = append(vol, p)
+			case "sync":
+				if b, ok := cur.files[e.Path]; ok {
+					durable[e.Path] = b
+				}
+				var nv []int
+				for _, idx := range vol {
+					if rc.Evs[idx].Path != e.Path || rc.Evs[idx].Kind == "remove" {
+						nv = append(nv, idx)
+					}
+				}
+				vol = nv
+			}
+		}
+	}
+	return ps, nil
+}
